@@ -1407,7 +1407,11 @@ func propC07Ranges(c *Ctx) {
 				return
 			}
 			g := in.Parent()
-			if g.Pkg != fn.Pkg {
+			gp := g.Pkg
+			if gp == nil && g.Origin() != nil {
+				gp = g.Origin().Pkg // an instance of a generic helper of the package (groupByTx[logResult])
+			}
+			if gp != fn.Pkg {
 				return
 			}
 			// the tests may stand in the function of the attach step or in front of the call that leads to it
@@ -1430,60 +1434,69 @@ func propC07Ranges(c *Ctx) {
 			if !ok {
 				// two passes over the same list: a first loop tests every element and returns on the first one out
 				// of range; the attach step runs in a second loop over that list after the first has finished
-				var los, his []*ssa.BinOp
-				allInstrs(g, func(x ssa.Instruction) {
-					b, isB := x.(*ssa.BinOp)
-					if !isB || !isBlockNum(b.X) {
-						return
+				// (the attach step may live in a helper called after the first loop: it is then seen at that call)
+				origIn := in
+				for _, lifted := range reg.chain(origIn) {
+					in, g := lifted, lifted.Parent()
+					var los, his []*ssa.BinOp
+					allInstrs(g, func(x ssa.Instruction) {
+						b, isB := x.(*ssa.BinOp)
+						if !isB || !isBlockNum(b.X) {
+							return
+						}
+						if b.Op == token.LSS && is(b.Y, pStart) {
+							los = append(los, b)
+						}
+						if (b.Op == token.GEQ || b.Op == token.GTR) && isUpper(b.Y) {
+							his = append(his, b)
+						}
+					})
+					listOf := func(v ssa.Value) ssa.Value {
+						root, _ := fieldChain(stripNum(v))
+						if s, idx, isE := elemOf(root); isE && isInduction(idx) {
+							return stripConv(s)
+						}
+						return nil
 					}
-					if b.Op == token.LSS && is(b.Y, pStart) {
-						los = append(los, b)
-					}
-					if (b.Op == token.GEQ || b.Op == token.GTR) && isUpper(b.Y) {
-						his = append(his, b)
-					}
-				})
-				listOf := func(v ssa.Value) ssa.Value {
-					root, _ := fieldChain(stripNum(v))
-					if s, idx, isE := elemOf(root); isE && isInduction(idx) {
-						return stripConv(s)
-					}
-					return nil
-				}
-				passOK := func(b *ssa.BinOp) (ssa.Value, bool) {
-					every, found := passesEveryCompletedIteration(b)
-					if !found || !every {
-						return nil, false
-					}
-					// out of range leaves the function: it never comes back to this test
-					t, _ := boolEdges(b)
-					for _, e := range t {
-						if again, _ := reach(Site{e.To, -1}, isInstr(b), nil); again {
+					passOK := func(b *ssa.BinOp) (ssa.Value, bool) {
+						every, found := passesEveryCompletedIteration(b)
+						if !found || !every {
 							return nil, false
 						}
-					}
-					// the attach step comes after the loop and is not part of it
-					if back, _ := reach(siteOf(in), isInstr(b), nil); back {
-						return nil, false
-					}
-					if fwd, _ := reach(siteOf(b), isInstr(in), nil); !fwd || !b.Block().Dominates(in.Block()) && !loopHeaderDominates(b, in) {
-						return nil, false
-					}
-					return listOf(b.X), len(t) > 0
-				}
-				for _, lo := range los {
-					for _, hi := range his {
-						l1, ok1 := passOK(lo)
-						l2, ok2 := passOK(hi)
-						if !ok1 || !ok2 || l1 == nil || l1 != l2 {
-							continue
-						}
-						for _, col := range loopCollections(in) {
-							if stripConv(col) == l1 || sameVar(col, l1) {
-								ok = true
+						// out of range leaves the function: it never comes back to this test
+						t, _ := boolEdges(b)
+						for _, e := range t {
+							if again, _ := reach(Site{e.To, -1}, isInstr(b), nil); again {
+								return nil, false
 							}
-							if arg, isLen := lenArg(col); isLen && (stripConv(arg) == l1 || sameVar(arg, l1)) {
-								ok = true
+						}
+						// the attach step comes after the loop and is not part of it
+						if back, _ := reach(siteOf(in), isInstr(b), nil); back {
+							return nil, false
+						}
+						if fwd, _ := reach(siteOf(b), isInstr(in), nil); !fwd || !b.Block().Dominates(in.Block()) && !loopHeaderDominates(b, in) {
+							return nil, false
+						}
+						return listOf(b.X), len(t) > 0
+					}
+					for _, lo := range los {
+						for _, hi := range his {
+							l1, ok1 := passOK(lo)
+							l2, ok2 := passOK(hi)
+							if !ok1 || !ok2 || l1 == nil || l1 != l2 {
+								continue
+							}
+							cols := loopCollections(in)
+							for _, col := range loopCollections(origIn) {
+								cols = append(cols, reg.Resolve(stripConv(col)))
+							}
+							for _, col := range cols {
+								if stripConv(col) == l1 || sameVar(col, l1) {
+									ok = true
+								}
+								if arg, isLen := lenArg(col); isLen && (stripConv(arg) == l1 || sameVar(arg, l1)) {
+									ok = true
+								}
 							}
 						}
 					}
